@@ -290,7 +290,9 @@ def build():
              lambda r: {"X": reg_data(r, n=31)["X"]}, lambda r: {"X": reg_data(r, n=22, d=2)["X"]},
              methods=["predict", "transform"], rowwise=["predict", "transform"],
              alts={"strategy": [lambda: "distance", lambda: "gain"], "init": [lambda: "random"],
-                   "algorithm": [lambda: "lloyd"], "n_init": [lambda: 1, lambda: 3]}))
+                   "algorithm": [lambda: "lloyd"], "n_init": [lambda: 1, lambda: 3],
+                   "kmeans0": [lambda est: not est.kmeans0 if est is not None else False],
+                   "history": [lambda: True]}))
     add(Spec("ClassifierAfterKMeans",
              [lambda: mm.ClassifierAfterKMeans(), lambda: mm.ClassifierAfterKMeans(c_n_clusters=3, e_C=0.5),
               lambda: mm.ClassifierAfterKMeans(estimator=LogisticRegression(C=2.0),
